@@ -18,4 +18,14 @@ TEXTS = {
         "level_text": "Exploration; exhaustive over all operand pairs of 8-bit and packed (1..12 bit) channels and, in the thorough tier, of u16/s16/packed16 (2^32 pairs each); quick uses all a x a 1/97 lattice of b plus boundary columns. channel_invert over every value of every <=16-bit model and stratified/complete 32-bit. Float on a grid with stated tolerances.",
         "level_note": "Exact integer reference; signed channels are compared after the documented shift to the unsigned range.",
     },
+    "C09": {
+        "technique": "complete 2^24 rgb8 sweep and complete alpha/ink planes plus seeded pixels for every ordered layout/depth pair; exact-weight, round-trip, metamorphic (premultiplication) and differential (per-channel channel_convert) oracles",
+        "level_text": "Exploration; exhaustive over all 2^24 rgb8 pixels (gray weights, exactness on greys, monotonicity via the full table, rgb->cmyk->rgb), the complete (r,a) planes of rgba8/argb8 and (ink,k) planes of cmyk8; every ordered pair of 24 pixel types (4 colour spaces x layouts x 8/16/32f/signed depths) on 2.5k/20k seeded pixels each. View-level agreement (color_converted_view, copy_and_convert_pixels) is decided by the C04 harness's converting cells.",
+        "level_note": "channel_convert/channel_multiply are taken as given here (decided by C06/C07).",
+    },
+    "C18": {
+        "technique": "complete 2^24 rgb8 round-trip sweep per toolbox colour space with fixed tolerances, boundary grids for hue periodicity/greys/sector continuity, complete gray_alpha and cmyka planes",
+        "level_text": "Exploration; exhaustive over all 2^24 rgb8 pixels for each of hsv, hsl, xyz, lab, ycbcr601, ycbcr709 and the cmyka leg (117 million round trips), plus the hue/saturation/value boundary grid, the complete gray_alpha8 plane, a gray_alpha16 lattice, luminance on a lattice and complete cmyka ink planes.",
+        "level_note": "The rgb->cmyka direction does not exist in the library; that clause is instantiated through core rgb->cmyk.",
+    },
 }
